@@ -40,12 +40,38 @@ type Pay struct {
 	NV   PNested
 	SI   []interface{}
 	T    time.Time
+	// deeper shapes: containers inside containers, three levels of structs by value
+	MI   map[string]interface{}
+	Deep PDeep
+	SAr  [][2]*int
+	SAs  [][2][]int
+	SS   [][]int
+	SM   []map[string]int
+	MSl  map[string][]int
+	SlT  []PTags
+}
+
+type PTags struct {
+	Name string
+	Tags []string
+}
+type PDeepB struct {
+	L []int
+	M map[string]int
+}
+type PDeepA struct {
+	X int
+	B PDeepB
+}
+type PDeep struct {
+	A PDeepA
+	N int
 }
 
 func ip(v int) *int { return &v }
 
 // container fields and their three fillings: 0 nil/zero, 1 empty, 2 non-empty
-const nPayFields = 12
+const nPayFields = 20
 
 func fillPay(p *Pay, field, mode int) {
 	switch field {
@@ -124,6 +150,62 @@ func fillPay(p *Pay, field, mode int) {
 			p.NV = PNested{S: []int{}, M: map[string]int{}}
 		case 2:
 			p.NV = PNested{S: []int{1, 2}, M: map[string]int{"z": 26}}
+		}
+	case 12:
+		switch mode {
+		case 1:
+			p.MI = map[string]interface{}{}
+		case 2:
+			p.MI = map[string]interface{}{"l": []interface{}{"a", "b"}, "m": map[string]interface{}{"x": "y"}, "s": "t"}
+		}
+	case 13:
+		switch mode {
+		case 1:
+			p.Deep = PDeep{A: PDeepA{B: PDeepB{L: []int{}, M: map[string]int{}}}}
+		case 2:
+			p.Deep = PDeep{A: PDeepA{X: 1, B: PDeepB{L: []int{1, 2}, M: map[string]int{"q": 1}}}, N: 2}
+		}
+	case 14:
+		switch mode {
+		case 1:
+			p.SAr = [][2]*int{}
+		case 2:
+			p.SAr = [][2]*int{{ip(1), ip(2)}, {nil, ip(3)}}
+		}
+	case 15:
+		switch mode {
+		case 1:
+			p.SAs = [][2][]int{}
+		case 2:
+			p.SAs = [][2][]int{{{1, 2}, {3}}, {nil, {4}}}
+		}
+	case 16:
+		switch mode {
+		case 1:
+			p.SS = [][]int{}
+		case 2:
+			p.SS = [][]int{{1, 2}, {}, {3}}
+		}
+	case 17:
+		switch mode {
+		case 1:
+			p.SM = []map[string]int{}
+		case 2:
+			p.SM = []map[string]int{{"a": 1}, nil, {"b": 2}}
+		}
+	case 18:
+		switch mode {
+		case 1:
+			p.MSl = map[string][]int{}
+		case 2:
+			p.MSl = map[string][]int{"a": {1, 2}, "e": {}}
+		}
+	case 19:
+		switch mode {
+		case 1:
+			p.SlT = []PTags{}
+		case 2:
+			p.SlT = []PTags{{Name: "n", Tags: []string{"x", "y"}}, {Name: "m"}}
 		}
 	case 11:
 		switch mode {
@@ -314,6 +396,63 @@ var payMutators = []struct {
 			return false
 		}
 		l[0] = "changed"
+		return true
+	}},
+	{"MI[l][0]", func(p *Pay) bool {
+		l, ok := p.MI["l"].([]interface{})
+		if !ok || len(l) == 0 {
+			return false
+		}
+		l[0] = "changed"
+		return true
+	}},
+	{"Deep.A.B.L[0]", func(p *Pay) bool {
+		if len(p.Deep.A.B.L) == 0 {
+			return false
+		}
+		p.Deep.A.B.L[0] = 99
+		return true
+	}},
+	{"*SAr[0][0]", func(p *Pay) bool {
+		if len(p.SAr) == 0 || p.SAr[0][0] == nil {
+			return false
+		}
+		*p.SAr[0][0] = 99
+		return true
+	}},
+	{"SAs[0][0][0]", func(p *Pay) bool {
+		if len(p.SAs) == 0 || len(p.SAs[0][0]) == 0 {
+			return false
+		}
+		p.SAs[0][0][0] = 99
+		return true
+	}},
+	{"SS[0][0]", func(p *Pay) bool {
+		if len(p.SS) == 0 || len(p.SS[0]) == 0 {
+			return false
+		}
+		p.SS[0][0] = 99
+		return true
+	}},
+	{"SM[0][a]", func(p *Pay) bool {
+		if len(p.SM) == 0 || p.SM[0] == nil {
+			return false
+		}
+		p.SM[0]["a"] = 99
+		return true
+	}},
+	{"MSl[a][0]", func(p *Pay) bool {
+		if len(p.MSl["a"]) == 0 {
+			return false
+		}
+		p.MSl["a"][0] = 99
+		return true
+	}},
+	{"SlT[0].Tags[0]", func(p *Pay) bool {
+		if len(p.SlT) == 0 || len(p.SlT[0].Tags) == 0 {
+			return false
+		}
+		p.SlT[0].Tags[0] = "changed"
 		return true
 	}},
 	{"NV.M[z]", func(p *Pay) bool {
@@ -574,7 +713,7 @@ func runC14(c *Ctx) {
 		}
 	}
 	c.Meta(map[string]interface{}{
-		"rule":   "shapes: every single and every pair of container fields (slice of ints / pointers / structs, array, array of pointers, maps to ints / pointers / slices of pointers, pointer, pointer to pointer, nested struct by value) filled empty or non-empty (thorough: additionally all 3^6 fillings of the pointer-bearing fields); per shape and storage mode (sync, cache, async pending, async flushed, cache+compression): store, then per mutator (18 reachable mutable locations) mutate the caller's object and read through Get(fresh), Get(same dirty object), GetByUUID, All, AssignAll, Collect; mutate returned objects and read again; reopen and read; without mutation: JSON equality of every read with the accepted value and a reflection walk proving that no read shares memory with the stored argument or with another read. Non-trivial = non-empty shapes.",
+		"rule":   "shapes: every single and every pair of container fields (slice of ints / pointers / structs, array, array of pointers, maps to ints / pointers / slices of pointers, pointer, pointer to pointer, nested struct by value, map of interfaces holding containers, three levels of structs by value, slices of arrays of pointers / of slices, slice of slices, slice of maps, map of slices, slice of structs holding slices) filled empty or non-empty (thorough: additionally all 3^6 fillings of the pointer-bearing fields); per shape and storage mode (sync, cache, async pending, async flushed, cache+compression): store, then per mutator (18 reachable mutable locations) mutate the caller's object and read through Get(fresh), Get(same dirty object), GetByUUID, All, AssignAll, Collect; mutate returned objects and read again; reopen and read; without mutation: JSON equality of every read with the accepted value and a reflection walk proving that no read shares memory with the stored argument or with another read. Non-trivial = non-empty shapes.",
 		"shapes": len(shs), "modes": len(modes), "mutators": len(payMutators),
 		"assumptions": []string{"strings (immutable) and unexported fields are skipped, as documented in object.go"},
 	})
